@@ -88,8 +88,9 @@ pub struct PsParams {
 }
 
 pub fn projset(p: PsParams) -> impl Strategy<Value = ProjSet> {
+    // plain names get most of the weight so that different projects often hold homonyms
     let tgt = (
-        0usize..TARGET_NAMES.len(),
+        (0usize..13).prop_map(|i| [0usize, 0, 0, 1, 1, 1, 2, 2, 3, 4, 5, 6, 7][i]),
         0u8..10,
         prop::collection::vec((any::<u8>(), any::<u8>(), any::<u8>()), 0..=3),
         any::<u8>(),
